@@ -69,12 +69,17 @@ type vhC02Chain struct {
 func (c *vhC02Chain) Wallet() module.Wallet { return c.w }
 
 type vhC02Reader struct {
-	recs [][]byte
-	pos  int
+	recs     [][]byte
+	pos      int
+	tail     error // what the reader reports after the intact records (nil: a clean end)
+	repaired int
 }
 
 func (r *vhC02Reader) ReadBytes() ([]byte, error) {
 	if r.pos >= len(r.recs) {
+		if r.tail != nil {
+			return nil, r.tail
+		}
 		return nil, io.EOF
 	}
 	b := r.recs[r.pos]
@@ -82,11 +87,18 @@ func (r *vhC02Reader) ReadBytes() ([]byte, error) {
 	return b, nil
 }
 func (r *vhC02Reader) Close() error          { return nil }
-func (r *vhC02Reader) CloseAndRepair() error { return nil }
+func (r *vhC02Reader) CloseAndRepair() error { r.repaired++; return nil }
 
-type vhC02WM struct{ recs [][]byte }
+type vhC02WM struct {
+	recs   [][]byte
+	tail   error
+	reader *vhC02Reader
+}
 
-func (m *vhC02WM) OpenForRead(id string) (WALReader, error) { return &vhC02Reader{recs: m.recs}, nil }
+func (m *vhC02WM) OpenForRead(id string) (WALReader, error) {
+	m.reader = &vhC02Reader{recs: m.recs, tail: m.tail}
+	return m.reader, nil
+}
 func (m *vhC02WM) OpenForWrite(id string, cfg *WALConfig) (WALWriter, error) {
 	return &vhC01WAL{}, nil
 }
@@ -149,8 +161,21 @@ func VH_C02_restore_remembers_own_votes() {
 	e2 := vhC01New()
 	e2.cs.c = &vhC02Chain{vhC01Chain: &vhC01Chain{env: e2}, w: w}
 	e2.cs.validators = &vhC01Vals{self: w.Address()}
-	e2.cs.wm = &vhC02WM{recs: survived}
+	// the crash may also have left a torn or corrupted record after the durable ones
+	wm := &vhC02WM{recs: survived}
+	switch sym.Choose("tail", 3) {
+	case 1:
+		wm.tail = io.ErrUnexpectedEOF
+		sym.Reach("torn-tail")
+	case 2:
+		wm.tail = errCorruptedWAL
+		sym.Reach("corrupted-tail")
+	}
+	e2.cs.wm = wm
 	sym.Assert(e2.cs.applyRoundWAL() == nil, "the round WAL is applied")
+	if wm.tail != nil {
+		sym.Assert(wm.reader.repaired == 1, "a torn tail is repaired")
+	}
 	last := log[len(log)-1]
 	lastStep := stepPrevote
 	if last.vt == VoteTypePrecommit {
